@@ -5,6 +5,7 @@ import ast
 from typing import Dict, List, Optional, Set, Tuple
 
 from .. import AnalysisError
+from ..cfg import describe_path, no_exc
 from ..effects import CONST, FRESH, SELF, Eff
 from ..program import ClassInfo, FuncInfo, Unit, ancestors, enclosing_stmt, norm, walk_local
 
@@ -175,6 +176,124 @@ def run(ctx) -> None:
     check_copy_after(ctx)
     check_private(ctx)
     check_helpers(ctx)
+    ctx.rule("C13.fresh", "T6: reads of solver results are dominated by a solve made in the same call (repeatability)", floor=15)
+    check_fresh(ctx)
+
+
+
+# ---------------------------------------------------------------------------------------- fresh results
+RESULT_MODULES = ("cobra.flux_analysis.", "cobra.medium.", "cobra.summary.", "cobra.sampling.")
+SOLVE_METHODS = {"slim_optimize", "optimize"}
+
+
+def _result_reads(fn: FuncInfo) -> List[ast.AST]:
+    """Reads of what the last solve left in the solver: status, objective value, primal values, fluxes."""
+    out = []
+    for n in walk_local(fn.node):
+        if not isinstance(n, ast.Attribute) or not isinstance(n.ctx, ast.Load):
+            continue
+        base = norm(n.value)
+        if n.attr == "status" and base.endswith("solver"):
+            out.append(n)
+        elif n.attr == "value" and base.endswith("objective"):
+            out.append(n)
+        elif n.attr in ("primal", "dual"):
+            out.append(n)
+        elif n.attr in ("flux", "reduced_cost", "shadow_price") and isinstance(n.value, ast.Name):
+            out.append(n)
+    return out
+
+
+def _solve_nodes(ctx, fn: FuncInfo, g, solving: Set[str]):
+    nodes = set()
+    for n in walk_local(fn.node):
+        if not isinstance(n, ast.Call):
+            continue
+        hit = isinstance(n.func, ast.Attribute) and n.func.attr in SOLVE_METHODS
+        if not hit:
+            for callee, _ in ctx.inf.call_targets(fn, n):
+                if callee.qualname in solving:
+                    hit = True
+        if hit:
+            nodes |= {x for x in g.node_containing(n) if x.kind != "with_exit"}
+    return nodes
+
+
+def check_fresh(ctx) -> None:
+    """Repeatability: an analysis must not read what an *earlier* solve left in the solver. Every read of the solver's
+    status / objective value / primal values / fluxes is dominated by a solve made in the same call (or the function
+    is only ever called right after one)."""
+    prog = ctx.prog
+    fns = [f for f in prog.all_funcs() if f.qualname.startswith(RESULT_MODULES) and isinstance(f.node, ast.FunctionDef)]
+    # functions that solve on every path to a normal exit
+    solving: Set[str] = set()
+    changed = True
+    while changed:
+        changed = False
+        for f in fns:
+            if f.qualname in solving:
+                continue
+            g = ctx.flow.cfg(f)
+            sn = _solve_nodes(ctx, f, g, solving)
+            if not sn:
+                continue
+            exits = [x for x in g.nodes if x.kind == "exit"]
+            if exits and g.reaches_without(exits, lambda x: x in sn, edge_ok=no_exc) is None:
+                solving.add(f.qualname)
+                changed = True
+    # call sites
+    sites: Dict[str, List[Tuple[FuncInfo, ast.Call]]] = {}
+    for f in fns:
+        for n in walk_local(f.node):
+            if isinstance(n, ast.Call):
+                for callee, _ in ctx.inf.call_targets(f, n):
+                    sites.setdefault(callee.qualname, []).append((f, n))
+                # functions handed to map / imap
+                for a in n.args:
+                    if isinstance(a, ast.Name):
+                        sym = prog.resolve(f.unit, a.id)
+                        if isinstance(sym, FuncInfo):
+                            sites.setdefault(sym.qualname, []).append((f, n))
+    memo: Dict[str, bool] = {}
+
+    def entry_solved(f: FuncInfo, stack=()) -> bool:
+        if f.qualname in memo:
+            return memo[f.qualname]
+        if f.qualname in stack:
+            return False
+        cs = sites.get(f.qualname, [])
+        ok = bool(cs)
+        for caller, call in cs:
+            g = ctx.flow.cfg(caller)
+            sn = _solve_nodes(ctx, caller, g, solving)
+            at = {x for x in g.node_containing(call) if x.kind != "with_exit"}
+            if g.reaches_without(at, lambda x: x in sn, edge_ok=no_exc) is None:
+                continue
+            if entry_solved(caller, stack + (f.qualname,)):
+                continue
+            ok = False
+            break
+        memo[f.qualname] = ok
+        return ok
+
+    for f in fns:
+        reads = _result_reads(f)
+        if not reads:
+            continue
+        g = ctx.flow.cfg(f)
+        sn = _solve_nodes(ctx, f, g, solving)
+        for r in reads:
+            at = {x for x in g.node_containing(r) if x.kind != "with_exit"}
+            if not at:
+                continue
+            at_solve = at & sn  # e.g. `x = model.optimize().status`
+            w = None if at_solve else g.reaches_without(at, lambda x: x in sn, edge_ok=no_exc)
+            if w is None:
+                ctx.ok("C13.fresh", f, enclosing_stmt(r), f"`{norm(r)}` is read after a solve made in this call")
+            elif entry_solved(f):
+                ctx.ok("C13.fresh", f, enclosing_stmt(r), f"`{norm(r)}`: every call of {f.short} follows a solve in its caller")
+            else:
+                ctx.bad("C13.fresh", f, enclosing_stmt(r), f"`{norm(r)}` can be read before any solve of this call: it then holds whatever an earlier optimisation (under other bounds, another objective, a rolled-back context) left in the solver, so the same call on the same model gives different results", path=describe_path(w))
 
 
 def visible_roots(ctx, fn: FuncInfo, e: Eff) -> Set[tuple]:
